@@ -327,11 +327,11 @@ pub fn run(e: &Engine) {
     e.assume("snapshots and versions are observed in plaintext at the Server trait boundary of the harness ModelServer");
     let rule = "C01-style histories with generated Unicode property names/values, an urgency script, avoid_snapshots per replica, fresh replicas and foreign-snapshot offers; \
 non-trivial = a checked snapshot at chain position >= 2 with >= 1 task, or a fresh replica that started from a snapshot and applied later versions";
-    e.campaign("snapshots", rule, e.tier.pick(3000, 300_000), || strategy(e.tier.pick(24, 60), 0), render, check_case);
+    e.campaign("snapshots", rule, e.tier.pick(20_000, 600_000), || strategy(e.tier.pick(24, 60), 0), render, check_case);
     e.campaign(
         "snapshots-multibatch",
         "as 'snapshots' with pending changes above the batching threshold, so that urgency can be stated between two batches of one sync",
-        e.tier.pick(64, 3000),
+        e.tier.pick(300, 6000),
         || strategy(10, 4),
         render,
         check_case,
